@@ -361,4 +361,34 @@ theorem source_no_consuming_iterator_is_clone :
 
 end Surface
 
+section SurfaceState
+open Orx.GenThms.Surface Orx.Gen
+
+/-- the consuming iterators hold their storage and one counter — no cached element pointer, no ownership bitmap: which elements are
+still owned is a function of the counter alone, as in the ownership theorems -/
+theorem source_state_is_the_models :
+    fieldsOf "AtomicCounter" = [["current: AtomicUsize"]] ∧
+    fieldsOf "ConIterOfSlice" = [["slice: &'a[T]", "counter: AtomicCounter"]] ∧
+    fieldsOf "ConIterOfRange" = [["range: Range<Idx>", "counter: AtomicCounter"]] ∧
+    fieldsOf "ConIterOfVec" = [["vec: UnsafeCell<ManuallyDrop<Vec<T>>>", "vec_len: usize", "counter: AtomicCounter"]] ∧
+    fieldsOf "ConIterOfArray" = [["array: UnsafeCell<ManuallyDrop<[T;N]>>", "counter: AtomicCounter"]] ∧
+    fieldsOf "ConIterOfIter" = [["iter: UnsafeCell<Iter>", "initial_len: Option<usize>", "reserved_counter: AtomicCounter",
+      "yielded_counter: AtomicCounter", "completed: AtomicBool"]] ∧
+    fieldsOf "CompleteOnUnwind" = [["completed: &'aAtomicBool", "armed: bool"]] ∧
+    fieldsOf "Taken" = [["ptr: *mutT", "len: usize", "idx: usize"]] ∧
+    fieldsOf "BufferedIter" = [["buffered_iter: B", "atomic_iter: &'aB::ConIter", "phantom: PhantomData<T>"],
+      ["values: &'amut[Option<T>]", "initial_len: usize", "current_idx: usize"]] ∧
+    fieldsOf "BufferIter" = [["values: Vec<Option<T>>", "phantom: PhantomData<Iter>"]] ∧
+    fieldsOf "BufferedSlice" = [["chunk_size: usize", "phantom: PhantomData<T>"]] ∧
+    fieldsOf "BufferedVec" = [["chunk_size: usize", "phantom: PhantomData<T>"]] ∧
+    fieldsOf "BufferedArray" = [["chunk_size: usize", "phantom: PhantomData<T>"]] ∧
+    fieldsOf "BufferedRange" = [["chunk_size: usize"]] ∧
+    fieldsOf "ClonedBufferedChunk" = [["chunk: C", "phantom: PhantomData<&'aT>"]] ∧
+    fieldsOf "CopiedBufferedChunk" = [["chunk: C", "phantom: PhantomData<&'aT>"]] ∧
+    fieldsOf "Cloned" = [["iter: A", "phantom: PhantomData<&'aT>"]] ∧ fieldsOf "Copied" = [["iter: A", "phantom: PhantomData<&'aT>"]] ∧
+    fieldsOf "ConIterValues" = [["con_iter: &'aC"]] ∧ fieldsOf "ConIterIdsAndValues" = [["con_iter: &'aC"]] :=
+  Orx.GenThms.Surface.the_state
+
+end SurfaceState
+
 end Orx.Props.C08
